@@ -21,6 +21,7 @@ def main():
     cross = '--cross' in a
     flags = a[a.index('--flags') + 1].split() if '--flags' in a else []
     mt = os.path.join(src, 'meta.txt')
+    if not os.path.exists(mt): mt = os.path.join(src, 'agent_notes.txt')
     if not flags and os.path.exists(mt):
         first = open(mt, errors='replace').readline().strip()
         if first.upper().startswith('FLAGS:'): flags = first.split(':', 1)[1].split()
@@ -63,13 +64,18 @@ def main():
         res['status'] = 'CAUGHT' if own and own['violation'] else 'MISSED'
         res['caught_by'] = sorted(t for t, v in res['checks'].items() if v['violation'])
         out = os.path.join(ROOT, 'seeded', name); os.makedirs(out, exist_ok=True)
-        shutil.copy(os.path.join(src, 'patch.diff'), out); shutil.copy(demo, out)
-        if os.path.exists(os.path.join(src, 'meta.txt')): shutil.copy(os.path.join(src, 'meta.txt'), os.path.join(out, 'agent_notes.txt'))
+        if os.path.abspath(src) != os.path.abspath(out):
+            shutil.copy(os.path.join(src, 'patch.diff'), out); shutil.copy(demo, out)
+            if os.path.exists(os.path.join(src, 'meta.txt')): shutil.copy(os.path.join(src, 'meta.txt'), os.path.join(out, 'agent_notes.txt'))
+        old = json.load(open(os.path.join(out, 'meta.json'))) if os.path.exists(os.path.join(out, 'meta.json')) else {}
         meta = {'breaks_property': pid, 'name': name, 'source': res['source'], 'baseline': why, 'demo': res['demo'], 'demo_flags': flags,
                 'what_it_needs_to_manifest': '(see agent_notes.txt)', 'checks_run': {t: {'violation': v['violation'], 'keys': v['keys'], 'wall_s': v['wall_s']} for t, v in res['checks'].items()},
                 'caught_by': res['caught_by'], 'status': res['status'],
                 'what_was_run': 'scratch git worktree of /repo HEAD + git apply patch.diff; cmake/ninja build with project flags; ctest 30/30; demo.c compiled against patched and unpatched src/cat.c; '
                                 'VERIF_REPO=<worktree> python3 run.py check <ID> --tier quick for each listed check; worktree removed afterwards'}
+        for k in ('history', 'assessment'):
+            if k in old: meta[k] = old[k]
+        if old.get('status', '').startswith(('NOT DETECTED', 'CAUGHT BY SIBLING')) and meta['status'] == 'MISSED': meta['status'] = old['status']
         json.dump(meta, open(os.path.join(out, 'meta.json'), 'w'), indent=1)
         print(json.dumps({k: res[k] for k in ('name', 'property', 'status', 'caught_by', 'demo')}))
         print('  ', {t: (v['violation'], v['keys'][:3]) for t, v in res['checks'].items() if v['violation'] or t == pid})
